@@ -273,6 +273,11 @@ def usage_run(k, sit):
         opts += ['--match-out', 'NOT-IN-THE-OUTPUT']
     elif f == 'match-err-absent':
         opts += ['--match-err', 'NOT-IN-THE-OUTPUT']
+    elif f == 'match-both-out-absent':
+        opts += ['--match-err', 'assertion', '--match-out',
+                 'NOT-IN-THE-OUTPUT']
+    elif f == 'match-both-err-absent':
+        opts += ['--match-out', 'bug', '--match-err', 'NOT-IN-THE-OUTPUT']
     elif f == 'undecodable-output':
         # every candidate that lost the marker 3 but kept check-sat prints
         # bytes that are not UTF-8 (the check of such a candidate fails)
@@ -306,6 +311,8 @@ def usage_run(k, sit):
                        mangle=f if f not in ('none', 'interrupt',
                                              'match-out-absent',
                                              'match-err-absent',
+                                             'match-both-out-absent',
+                                             'match-both-err-absent',
                                              'undecodable-output') and
                        not f.startswith('golden-timeout') else None)
     return r
